@@ -269,6 +269,22 @@ func runC15(c *Ctx) {
 	rec.RequireClasses(500)
 }
 
+// c15usedKey returns a Key variable that already holds a full private key
+// with every optional parameter (as if an earlier decode had filled it).
+func c15usedKey() *cose.Key {
+	priv := gen.ECKeyFromD(elliptic.P256(), big.NewInt(0x1234567))
+	k, err := cose.NewKeyFromPrivate(priv)
+	if err != nil {
+		panic("c15usedKey: " + err.Error())
+	}
+	k.ID = []byte("old-kid")
+	k.Ops = []cose.KeyOp{cose.KeyOpSign, cose.KeyOpVerify}
+	k.BaseIV = []byte{9, 9, 9, 9}
+	k.Params[int64(-70)] = []byte("old-extra")
+	k.Params["old"] = "text"
+	return k
+}
+
 func diagOr(n *Node) string {
 	if n == nil {
 		return "absent"
@@ -378,6 +394,20 @@ func c15judgeWire(rec *mon.Recorder, b []byte, cell, source string) {
 	}
 	n = refcose.StripTags(n) // tags are looked through by the (tag-tolerant) key decoder
 	c15gate(rec, &k, cell, c15wireFacts(n), in)
+	// the same bytes decoded into a variable that already held another key (a private EC2 key with
+	// every optional parameter): the result must be the same key, with the same gate
+	reused := c15usedKey()
+	if err := reused.UnmarshalCBOR(b); err != nil {
+		rec.Violate("history-dependent", source, "bytes accepted into a fresh Key are refused into a used one: "+err.Error(), in)
+		return
+	}
+	if c3, err := reused.MarshalCBOR(); err != nil || !eqBytes(c3, c1) {
+		rec.Violate("history-dependent", source, fmt.Sprintf("decoding into a previously used Key gives another key (err=%v)\n fresh %s\n used  %s", err, hexs(c1), hexs(c3)), in)
+		return
+	}
+	in["destination"] = "previously used Key variable"
+	c15gate(rec, reused, cell, c15wireFacts(n), in)
+	delete(in, "destination")
 }
 
 // c15gate evaluates Signer()/Verifier() against the facts.
